@@ -9,6 +9,7 @@ import (
 	"encoding/json"
 	"fmt"
 	"os"
+	"runtime"
 	"sort"
 	"strings"
 	"testing"
@@ -244,6 +245,16 @@ func Explore(t *testing.T, sc *Scenario, r *rep.Report) {
 		stack = stack[:len(stack)-1]
 		rep.Current(map[string]any{"scenario": sc.Name, "choices": it.Prefix, "sig_hint": sc.Name})
 		res, bp := runOnce(t, sc, it.Prefix, false)
+		if os.Getenv("VERIF_MEMDEBUG") != "" && schedules%2000 == 0 {
+			var ms runtime.MemStats
+			runtime.ReadMemStats(&ms)
+			if schedules == 2000 {
+				buf := make([]byte, 1<<20)
+				buf = buf[:runtime.Stack(buf, true)]
+				_ = os.WriteFile("/tmp/goroutines.txt", buf, 0o644)
+			}
+			fmt.Fprintf(os.Stderr, "memdebug %s schedules=%d goroutines=%d heap=%dMB stack-items=%d bp=%q\n", sc.Name, schedules, runtime.NumGoroutine(), ms.HeapAlloc>>20, len(stack), bp)
+		}
 		counted := true
 		if counted {
 			schedules++
